@@ -1,6 +1,7 @@
 // Topology source generator (DESIGN.md 3.4): synthetic-by-grammar or corpus XML, plus flags and type filters.
 // Everything is drawn from a Draw (rapidcheck-owned tape), value 0 is always the simplest choice.
 #pragma once
+#include "genxml.hpp"
 #include "engine.h"
 #include "snap.hpp"
 #include <hwloc.h>
@@ -118,13 +119,16 @@ struct SpecOpts {
   bool gen_filters = true;
   bool thissystem_flags = false;   // allow IS_THISSYSTEM-dependent flags (environment dependent)
   bool misc_keep = false;          // force Misc filter KEEP_ALL (harnesses that insert Misc objects)
+  int gx_num = 0, gx_den = 6;      // probability of a document generated from an abstract tree (genxml.hpp); 0 = never
+  GenXmlOpts gx;
 };
 
 static void gen_config(Draw &d, TopoSpec &sp, const SpecOpts &o);
 static TopoSpec gen_topospec(Draw &d, const SpecOpts &o = SpecOpts()) {
   TopoSpec sp;
   auto files = corpus_xml_files();
-  if (!files.empty() && o.xml_num > 0 && d.chance(o.xml_num, o.xml_den)) { sp.is_xml = true; sp.xmlpath = d.pick(files); }
+  if (o.gx_num > 0 && d.chance(o.gx_num, o.gx_den)) { GenXml g = gen_xml(d, o.gx); sp.is_xml = true; sp.xmlbuf = g.text; sp.xmlbuf_summary = g.summary; }
+  else if (!files.empty() && o.xml_num > 0 && d.chance(o.xml_num, o.xml_den)) { sp.is_xml = true; sp.xmlpath = d.pick(files); }
   else sp.synth = gen_synthetic(d, o.syn);
   gen_config(d, sp, o);
   return sp;
@@ -206,7 +210,7 @@ static int apply_spec_and_load(Case &c, hwloc_topology_t t, const TopoSpec &sp) 
 
 // run wf_check and the built-in check; fail the case on the first inconsistency
 static void require_wf(Case &c, hwloc_topology_t t, const char *where) {
-  WFError e; wf_check(t, e);
+  WFError e; if (!getenv("VERIF_TRIAGE_BUILTIN_ONLY")) wf_check(t, e);   // (triage aid: let only hwloc's own checker speak)
   c.checks(40);
   if (!e.ok()) c.fail("wf", "%s: %s%s", where, e.msgs[0].c_str(), e.msgs.size() > 1 ? (" (+" + std::to_string(e.msgs.size() - 1) + " more: " + e.msgs[1] + ")").c_str() : "");
   hwloc_topology_check(t);  // aborts on failure -> caught by the fork engine as "assert:..."
